@@ -405,8 +405,22 @@ def rule_evaluation_order(check, rule):
             dels = [d_ for d_ in ast.walk(h.node) if isinstance(d_, ast.Delete) and any('calls' in norm(t_) for t_ in d_.targets)]
             trunc = [a_ for a_ in ast.walk(h.node) if isinstance(a_, ast.Assign) and any(isinstance(t_, ast.Subscript) and 'calls' in norm(t_.value)
                                                                                         for t_ in a_.targets)]
-            if dels or trunc:
-                check.holds(rule, site_of(h, (dels or trunc)[0]), 'visit_%s drops what the first traversal recorded' % cname, key=k2)
+            whole = [t_ for d_ in ast.walk(h.node) if isinstance(d_, ast.Delete) for t_ in d_.targets if isinstance(t_, ast.Attribute)]
+            sliced = [norm(t_.value) for d_ in ast.walk(h.node) if isinstance(d_, ast.Delete) for t_ in d_.targets
+                      if isinstance(t_, ast.Subscript) and isinstance(t_.slice, ast.Slice)]
+            sliced += [norm(t_.value) for a_ in trunc for t_ in a_.targets if isinstance(t_, ast.Subscript)]
+            deferred = sorted(set(norm(c_.func.value) for m_ in vf.ci.methods.values() for c_ in ast.walk(m_.node)
+                                  if isinstance(c_, ast.Call) and isinstance(c_.func, ast.Attribute) and c_.func.attr == 'append'
+                                  and isinstance(c_.func.value, ast.Attribute) and m_.name == 'visit_Call'))
+            if whole:
+                check.violation(rule, site_of(h, whole[0]), 'visit_%s deletes the attribute %s itself instead of truncating the list: the next use of it '
+                                'raises AttributeError' % (cname, norm(whole[0])), key=k2, witness='any function with a loop')
+            elif (dels or trunc) and all(any(d_.split('.')[-1] == s_.split('.')[-1] for s_ in sliced) for d_ in deferred):
+                check.holds(rule, site_of(h, (dels or trunc)[0]), 'visit_%s drops what the first traversal recorded (calls%s)'
+                            % (cname, ''.join(', ' + d_.split('.')[-1] for d_ in deferred)), key=k2)
+            elif dels or trunc:
+                check.violation(rule, site_of(h, (dels or trunc)[0]), 'visit_%s drops the calls of the first traversal but keeps what it deferred (%s): every '
+                                'forwarding call inside a nested function in a loop is processed twice' % (cname, ', '.join(deferred)), key=k2)
             else:
                 check.violation(rule, site_of(h, h.node), 'visit_%s traverses the body twice and keeps the calls of both traversals' % cname, key=k2)
         elif _prescans_stores(h):
@@ -1544,3 +1558,205 @@ def rule_prescan_exhaustive(check, rule):
                 continue
             check.holds(rule, site_of(hp, site_), '%s hands out %s.%s' % (hp.name, cname, fn), key=key)
         check.floor(rule, 'binding constructs required of %s' % hp.name, n, 8)
+
+
+# ---------------------------------------------------------------------------
+# C05.R9c -- the re-evaluation of a recorded call against the late taints
+
+def rule_recheck_table(check, rule):
+    """C05.R9c: what the re-evaluation does to a recorded call.  For each star family X (the call's `varargs` / `varkwargs` marker):
+    X is replaced by its untainted view exactly when it *is* one of the markers tainted late (`any(X is m for m in late_tainted)`,
+    same X on both sides); the two flags of the family are recomputed from the replaced value and the visitor's own marker of
+    that family (`has_hide_starargs(X', self.X)`, [0] = use, [1] = hide); the call is rebuilt with all six fields.  Also: a method
+    called on a star argument inside a nested scope records its marker as tainted late."""
+    repo = check.repo
+    vis = repo.cls(VIS.split(':')[0] + ':' + VIS.split(':')[1])
+    init = vis.methods['__init__']
+    # the method the re-evaluation loop of __init__ calls
+    target = None
+    for c in ast.walk(init.node):
+        if isinstance(c, ast.Call) and isinstance(c.func, ast.Attribute) and isinstance(c.func.value, ast.Name) and c.func.value.id == init.params()[0][0] \
+                and c.func.attr in vis.methods and any(isinstance(x, ast.Attribute) and x.attr == 'get_untainted' for x in ast.walk(vis.methods[c.func.attr].node)):
+            target = vis.methods[c.func.attr]
+    if target is None:
+        check.holds(rule, site_of(init, init.node), 'no re-evaluation helper (C05.R9 judges whether one is needed)', key='recheck|none', nontrivial=False)
+        return
+    fi = target
+    check.analysed(fi)
+    it = Interp(repo, Policy())
+    paths = it.run(fi)
+    check.absorb(it)
+    selft = ('P', fi.params()[0][0])
+    callp = ('P', fi.params()[0][1])
+    fams = {'varargs': ('use_varargs', 'hide_args'), 'varkwargs': ('use_varkwargs', 'hide_kwargs')}
+    n = 0
+    seen = set()
+    for p in paths:
+        if p.status != 'return':
+            continue
+        v = p.value
+        st = site_of(fi, [e for e in p.effects if e.kind == 'return'][-1].node)
+        if not (v[0] == 'M' and v[1] == callp and v[2] == '_replace'):
+            k = 'recheck|result'
+            if k not in seen:
+                seen.add(k)
+                check.violation(rule, st, '%s returns %s, not the call rebuilt with _replace(...)' % (fi.name, show(v)[:60]), key=k)
+            continue
+        kws = dict(v[4])
+        # which family is late-tainted on this path?
+        late = {}
+        for atom, pol in p.lits:
+            if atom[0] == 'truthy' and atom[1][0] == 'C' and atom[1][1] == 'any':
+                for s_ in subterms(atom[1]):
+                    if s_[0] == 'lit' and s_[1][0] == 'is':
+                        a_, b_ = s_[1][1], s_[1][2]
+                        for x_, y_ in ((a_, b_), (b_, a_)):
+                            if x_[0] == 'A' and x_[1] == callp and y_[0] == 'E' and mentions(y_, ('A', selft, 'late_tainted')):
+                                # polarity of the inner comparison: `is` (True) / `is not` (False)
+                                late[x_[2]] = (pol, s_[2])
+        for fam, (use_f, hide_f) in fams.items():
+            n += 1
+            key = 'recheck|%s|late=%s' % (fam, late.get(fam, (None,))[0])
+            if key in seen:
+                continue
+            seen.add(key)
+            orig = ('A', callp, fam)
+            unt = ('M', orig, 'get_untainted', (), ())
+            msgs = []
+            if fam not in late:
+                msgs.append('whether the call\'s %s was tainted late is not tested (the test looks at %s)' % (fam, ', '.join(sorted(late)) or 'nothing'))
+            else:
+                pol, inner_pol = late[fam]
+                if inner_pol is not True:
+                    msgs.append('the membership test of %s among the late-tainted markers is negated (`is not`)' % fam)
+                want = unt if pol else orig
+                got = kws.get(fam)
+                if got is None:
+                    msgs.append('the rebuilt call keeps the recorded %s instead of the re-evaluated one' % fam)
+                elif got != want:
+                    msgs.append('%s tainted late=%s, but the rebuilt call gets %s' % (fam, pol, show(got)[:50]))
+                cur = got if got is not None else orig
+                for fld, idx in ((use_f, 0), (hide_f, 1)):
+                    g_ = kws.get(fld)
+                    wantf = ('S', ('C', VIS + '.has_hide_starargs', (selft, cur, ('A', selft, fam)), ()), K(idx))
+                    if g_ is None:
+                        msgs.append('the rebuilt call keeps the recorded %s' % fld)
+                    elif g_ != wantf:
+                        msgs.append('%s is %s, expected has_hide_starargs(<re-evaluated %s>, self.%s)[%d]' % (fld, show(g_)[:70], fam, fam, idx))
+            if msgs:
+                for m_ in msgs[:2]:
+                    check.violation(rule, st, '%s: %s' % (fi.name, m_), key=key + '|' + m_[:30], guards=' & '.join(show_lit(l) for l in p.lits)[:160],
+                                    witness="def f(**k):\n    def h(): k.pop('z', None)\n    h(); return inner(**k)   must not advertise z")
+            else:
+                check.holds(rule, st, '%s: %s re-evaluated against the late taints and its flags recomputed' % (fi.name, fam), key=key)
+    check.floor(rule, 'family x path combinations of the re-evaluation', n, 4)
+    # the taint put on a star argument by a method call inside a nested scope is recorded as late
+    pc = vis.methods.get('process_Call')
+    if pc is not None:
+        key = 'recheck|late-record'
+        taints = [a for a in ast.walk(pc.node) if isinstance(a, ast.Assign) and any(isinstance(t, ast.Attribute) and t.attr == 'tainted' for t in a.targets)]
+        if taints:
+            ok = False
+            for t_ in taints:
+                par = t_._parent
+                blk = None
+                for f_ in ('body', 'orelse'):
+                    b_ = getattr(par, f_, None)
+                    if isinstance(b_, list) and t_ in b_:
+                        blk = b_
+                for s_ in (blk or [])[(blk or []).index(t_) + 1:] if blk else []:
+                    apps = [c for c in ast.walk(s_) if isinstance(c, ast.Call) and isinstance(c.func, ast.Attribute) and c.func.attr == 'append'
+                            and 'late_tainted' in norm(c.func.value)]
+                    if not apps:
+                        continue
+                    if isinstance(s_, ast.If):
+                        txt = norm(s_.test)
+                        in_body = any(c in list(ast.walk(b2)) for c in apps for b2 in s_.body)
+                        if ('parent is not None' in txt and in_body) or ('parent is None' in txt and not in_body):
+                            ok = True
+                    else:
+                        ok = True
+            if ok:
+                check.holds(rule, site_of(pc, taints[0]), 'a method called on a star argument inside a nested scope records the marker as tainted late', key=key)
+            else:
+                check.violation(rule, site_of(pc, taints[0]), 'process_Call taints the marker of a star argument a method is called on, but does not record it '
+                                'as tainted late when this happens in a nested scope: calls recorded earlier are not re-evaluated', key=key,
+                                witness="def f(**k):\n    def h(): k.pop('z', None)\n    h(); return inner(**k)")
+
+
+def rule_enclosing_lookup(check, rule, precision_rule=None):
+    """C05.R9d: Namespace.get_enclosing(name) -- which binding a nested function's read of `name` refers to.  None when the name is bound
+    (or declared nonlocal) in the nested scope itself; otherwise the binding of the *nearest* enclosing scope that has one, walking
+    `parent` links one scope at a time; None when no enclosing scope of the examined function binds it."""
+    repo = check.repo
+    fi = repo.func(AF + ':Namespace.get_enclosing', required=False)
+    if fi is None:
+        check.holds(rule, '-', 'no get_enclosing helper (C05.R9 judges how nested reads reach the enclosing binding)', key='enclosing|none', nontrivial=False)
+        return
+    check.analysed(fi)
+    it = Interp(repo, Policy())
+    paths = it.run(fi)
+    check.absorb(it)
+    selft, name = ('P', fi.params()[0][0]), ('P', fi.params()[0][1])
+    st = site_of(fi, fi.node)
+    own = {('in', name, ('A', selft, 'names')): 'names', ('in', name, ('A', selft, 'nonlocals')): 'nonlocals'}
+    msgs = []
+    pmsgs = []      # precision only: answering with an enclosing binding where None is due over-taints (discovery falls back), which
+    #                 soundness allows -- reported under the agreement property
+    saw = {'names': False, 'nonlocals': False, 'walk': False, 'found': False, 'miss': False}
+    for p in paths:
+        lits = dict(p.lits)
+        shadow = [own[a] for a in own if lits.get(a) is True]
+        loops = [e for e in p.effects if e.kind == 'loop']
+        if shadow:
+            for s_ in shadow:
+                saw[s_] = True
+            if not (p.status == 'return' and p.value == NONE):
+                pmsgs.append('a name bound in the nested scope itself (%s) is answered with %s instead of None' % (shadow[0], show(p.value)[:40]))
+            continue
+        if not loops:
+            if p.status == 'return' and p.value == NONE:
+                msgs.append('a name that is not bound in the nested scope is answered None without looking at the enclosing scopes')
+            continue
+        lp = loops[0]
+        for sp in lp.sub:
+            cur = [vin for n_, vin in sp.env_in.items() if vin[0] == 'V' and vin[3] == ('A', selft, 'parent')]
+            if not cur:
+                msgs.append('the walk does not start from the parent scope')
+                continue
+            ns = cur[0]
+            found = dict(sp.lits).get(('in', name, ('A', ns, 'names')))
+            if found is True:
+                saw['found'] = True
+                if not (sp.status == 'return' and sp.value == ('S', ('A', ns, 'names'), name)):
+                    msgs.append('an enclosing scope that binds the name is answered with %s, not its binding' % (show(sp.value)[:40] if sp.value else sp.status))
+            elif found is False:
+                saw['walk'] = True
+                nxt = [v for n_, v in sp.env_out.items() if sp.env_in.get(n_) == ns]
+                if sp.status != 'continue' or not nxt or nxt[0] != ('A', ns, 'parent'):
+                    msgs.append('a scope that does not bind the name is not followed by its parent (%s)' % (show(nxt[0])[:40] if nxt else sp.status))
+        if p.status == 'return' and p.value == NONE:
+            saw['miss'] = True
+    for k_, txt in (('found', 'no enclosing scope is ever found to bind the name'), ('walk', 'the walk never moves on to the next enclosing scope')):
+        if not saw[k_]:
+            msgs.append(txt)
+    for k_, txt in (('names', 'names bound in the nested scope are not excluded'), ('nonlocals', 'names declared nonlocal in the nested scope are not excluded'),
+                    ('miss', 'a name no enclosing scope binds has no None answer')):
+        if not saw[k_]:
+            pmsgs.append(txt)
+    if precision_rule is not None:
+        kp = 'enclosing|exclusions'
+        if pmsgs:
+            for m_ in sorted(set(pmsgs))[:2]:
+                check.violation(precision_rule, st, 'get_enclosing: %s: a nested function\'s own variable of that name taints the enclosing *args/**kwargs '
+                                'and discovery falls back although the forwarding is intact' % m_, key=kp + '|' + m_[:30],
+                                witness="def f(**kwargs):\n    def h(kwargs): return kwargs\n    return inner(**kwargs)")
+        else:
+            check.holds(precision_rule, st, 'get_enclosing answers None for the nested scope\'s own names and for names no enclosing scope binds', key=kp)
+    key = 'enclosing|table'
+    if msgs:
+        for m_ in sorted(set(msgs))[:3]:
+            check.violation(rule, st, 'get_enclosing: %s' % m_, key=key + '|' + m_[:30],
+                            witness="def f(**kwargs):\n    def h(): kwargs['x'] = 1\n    h(); return inner(**kwargs)")
+    else:
+        check.holds(rule, st, 'get_enclosing: None for the scope\'s own names, else the nearest enclosing binding, else None', key=key)
